@@ -17,6 +17,8 @@ VERIF = os.path.dirname(os.path.dirname(os.path.abspath(__file__)))
 REPO = os.environ.get("VERIF_REPO", "/repo")
 SPEC = os.path.join(VERIF, "spec")
 BUILD = os.path.join(VERIF, ".build")
+# evidence/ and replays/ of runs against scratch trees (seeded changes) go elsewhere
+OUT = os.environ.get("VERIF_OUT", VERIF)
 WORK = os.path.join(VERIF, ".work")
 TLA_CP = "/opt/veriftools/tla/tla2tools.jar:/opt/veriftools/tla/CommunityModules-deps.jar"
 
@@ -91,24 +93,25 @@ class Ctx:
         shutil.rmtree(self.work, ignore_errors=True)
 
     # --------------------------------------------------------------- harness
+    def exe(self, race=False):
+        return os.path.join(self.work, "vh-race" if race else "vh")
+
     def build_harness(self, race=False):
-        os.makedirs(BUILD, exist_ok=True)
-        out = os.path.join(BUILD, "vh-race" if race else "vh")
+        """Build the harness against the repository's current working tree.  The binary and the module
+        file (with the replace directive for the tree under test) are private to this run, so that checks
+        can run side by side and against scratch trees (VERIF_REPO) without sharing anything mutable."""
+        out = self.exe(race)
         env = dict(os.environ)
         env.update(GOENV)
         hdir = os.path.join(VERIF, "harness")
-        # keep go.sum in step with the repository (offline: nothing is fetched)
+        modfile = os.path.join(self.work, "harness.mod")
+        txt = open(os.path.join(hdir, "go.mod")).read()
+        open(modfile, "w").write(re.sub(r"replace golang.org/x/mod => .*", "replace golang.org/x/mod => " + REPO, txt))
         try:
-            shutil.copyfile(os.path.join(REPO, "go.sum"), os.path.join(hdir, "go.sum"))
+            shutil.copyfile(os.path.join(REPO, "go.sum"), os.path.join(self.work, "harness.sum"))
         except OSError:
             pass
-        # write the replace directive for the repository under test
-        gomod = os.path.join(hdir, "go.mod")
-        txt = open(gomod).read()
-        new = re.sub(r"replace golang.org/x/mod => .*", "replace golang.org/x/mod => " + REPO, txt)
-        if new != txt:
-            open(gomod, "w").write(new)
-        cmd = ["go", "build", "-tags", "verif"]
+        cmd = ["go", "build", "-modfile", modfile, "-tags", "verif"]
         if race:
             cmd.append("-race")
         cmd += ["-o", out, "./cmd/vh"]
@@ -121,7 +124,9 @@ class Ctx:
 
     def vh(self, args, race=False, timeout=3600, stdin=None, env_extra=None):
         """Run the harness; returns parsed JSON report from its stdout (last line)."""
-        exe = os.path.join(BUILD, "vh-race" if race else "vh")
+        exe = self.exe(race)
+        if not os.path.exists(exe):
+            self.build_harness(race)
         env = dict(os.environ)
         env.update(GOENV)
         env["VERIF_SEED"] = str(self.seed)
@@ -306,11 +311,11 @@ def finish(ctx, replay_fn=None, level="model_checking", rule=""):
     reported = {}
     for v in new:
         reported.setdefault(v.get("sig", ""), v)
-    os.makedirs(os.path.join(VERIF, "replays"), exist_ok=True)
+    os.makedirs(os.path.join(OUT, "replays"), exist_ok=True)
     confirmed = 0
     for sig, v in sorted(reported.items()):
         safe = re.sub(r"[^A-Za-z0-9_.=-]", "_", sig)[:80]
-        path = os.path.join(VERIF, "replays", "%s-%s-%s.json" % (ctx.prop, safe, ctx.seed))
+        path = os.path.join(OUT, "replays", "%s-%s-%s.json" % (ctx.prop, safe, ctx.seed))
         with open(path, "w") as f:
             json.dump(v, f, indent=1, sort_keys=True)
         ok = True
@@ -359,8 +364,8 @@ def write_evidence(ctx, level, rule, violations=0, known=0):
         "wall_s": round(time.time() - ctx.t0, 1),
         "violations": violations,
     }
-    os.makedirs(os.path.join(VERIF, "evidence"), exist_ok=True)
-    path = os.path.join(VERIF, "evidence", ctx.prop + ".json")
+    os.makedirs(os.path.join(OUT, "evidence"), exist_ok=True)
+    path = os.path.join(OUT, "evidence", ctx.prop + ".json")
     tmp = path + ".tmp%d" % os.getpid()
     with open(tmp, "w") as f:
         json.dump(ev, f, indent=1, sort_keys=True)
